@@ -442,9 +442,14 @@ partial def rtree : P RTree := do
   else if t = 10 then do
     let c ← tok; let a ← tok; let fc ← tok; let fa ← tok; let md ← nat; let src ← rtree
     pure (.substMap (predOp c a) (mapOp fc fa) md src)
-  else do  -- a unary node whose function is a binary operator with a scalar on one side
+  else if t = 11 then do  -- a unary node whose function is a binary operator with a scalar on one side
     let c ← tok; let k ← tok; let side ← tok; let s ← rtree
     pure (.un (fun a => if side = 0 then binOp c a k else binOp c k a) s)
+  else do  -- a custom multi-step operator: each step is a unary operator (k = 0, side = 2) or a scalar operation
+    let steps ← listOf (do let c ← tok; let k ← tok; let side ← tok; pure (c, k, side))
+    let s ← rtree
+    pure (.unChain (steps.map fun (c, k, side) =>
+      if side = 2 then unOp c else fun a => if side = 0 then binOp c a k else binOp c k a) s)
 
 def showVals (vs : List Int) : String := "(" ++ ",".intercalate (vs.map toString) ++ ")"
 
